@@ -25,6 +25,7 @@ CONSTANTS
   DumpMod = 8
   NRepl = 17
   RichOnly = FALSE
+  NeedStruct = FALSE
   MaxRich <- Unlimited
   NCmtCls = 8
   NCppForms = 18
